@@ -15,6 +15,22 @@ CLAIMED = {
  "C02": dict(
    text="Theorems (Qv/Props/C02.lean): reopening the model on the flushed state with ANY legal parameters preserves every L2 entry, refcount, data sector and every read result (reopen_reads_same), for all states and geometries. Tie: after every successful flush the real code's file is swept through two freshly opened real devices (same and different block/slice/cache parameters) and compared with the flat disk; the file's own tables are compared with the model.",
    ref="5.C02", tech="Lean 4 theorems on the model's reopen + flush/reopen oracle through the real code", note=COMMON_NOTE + "; the model is cache-free: that the real caches are transparent is what the correspondence checks, not a theorem"),
+ "C03": dict(
+   text="Theorems (Qv/Props/C03.lean): `Dev.refs` counts every reference the format defines (header, L1 table clusters, reftable clusters, refblocks, L2 tables, standard and compressed data); `Acct` (stored refcount = references for EVERY host cluster) holds for every freshly formatted image (format_acct, all geometries within the L1 cap) and is preserved by allocation+mapping, new L2 table, new refblock, discard (all three variants) and a single-cluster write into a new cluster; remapping over an allocated entry leaks exactly one cluster (map_over_allocation_leaks_one: the known finding). Oracle: every file left by a successful flush is parsed and judged by the independent Lean checker Qv.Spec.Image.judge.",
+   ref="5.C03", tech="Lean 4 invariant (Acct) preserved per operation on the model + independent Lean image checker on every flushed file + correspondence of the file's tables",
+   note=COMMON_NOTE + "; partial: Acct preservation is not proved for multi-cluster writes, the COW path and reftable growth (judge covers them on the real code). Known finding listed in known_findings.jsonl: leak of a preallocated zero cluster on foreign images"),
+ "C04": dict(
+   text="Theorems (Qv/Spec/CrashAbs.lean, Qv/Props/C04.lean): for an abstract refcounted image and ANY log of updates and syncs, if every epoch satisfies the monitor (min refcount over all subsets >= max references over all subsets) then EVERY crash state (durable image + arbitrary subset of un-synced updates) is safe (epochSafe_sound, log_safe); the soft-update discipline implies it for all logs (disciplined_safe); negative witnesses for pointer-before-increment, decrement-before-unmap and missing syncs. Search on the real code: a crash after every backend request, subsets + block tearing of the pending requests, each crash file judged by Qv.Spec.Image.judge.",
+   ref="5.C04 / 10.3", tech="Lean 4 theorems on the abstract crash protocol + crash-state search over the real request log judged by the Lean image checker",
+   note=COMMON_NOTE + "; the tie between the abstract protocol and the code's flush order is the crash search (sampled subsets; exhaustive only for pending sets <= 9 in the thorough tier), not a proof"),
+ "C05": dict(
+   text="Theorems (Qv/Props/C05.lean): after a sync every crash state holds, at every location, the synced value or a value written LATER to that location (synced_value_survives), also through one level of mapping when mapping and target are untouched; negative witness reuse_before_unmap_loses_data (the defect found and repaired in discard). Search on the real code: after every flush_meta+fsync_range pair, every later crash state is read by the independent Lean reader and each guest sector must hold the synced token or the token of a later operation on it.",
+   ref="5.C05 / 10.3", tech="Lean 4 theorems on the abstract crash protocol + durability search over the real request log read by the independent Lean reader",
+   note=COMMON_NOTE + "; compressed clusters are skipped by the independent reader (no inflate in Lean); sampled subsets as for C04"),
+ "C19": dict(
+   text="Theorems (Qv/Props/C19.lean): the reference host-file model - read is short exactly at end of file, read-after-write, write extends with zero fill, punch keeps the length and reads zeros, the zero-write fallback is indistinguishable from a punch for every reader and differs only in length (fallback_equiv), fsync is the identity. Correspondence: Qcow2IoSync, Qcow2IoTokio, Qcow2IoUring over scratch files and the in-memory backend run the same request sequences (at/across/beyond EOF, zero-length, multi-MiB, O_DIRECT) and must agree line by line and in final (length, hash), and with the model; guest histories replayed on all backends give the same sweep.",
+   ref="5.C19", tech="Lean 4 theorems on the host-file model + differential of the three real backends, the in-memory backend and the model",
+   note="partial by nature: kernel / file-system behaviour underneath the real backends (tmpfs vs ext4 hole semantics, O_DIRECT acceptance) is observed in this sandbox, not proved"),
  "C08": dict(
    text="Theorems (Qv/Props/C08.lean, 41): for all refcount slices and device states - free-window search returns the FIRST all-zero window or none when none exists (sound, first, complete, fuel suffices), slice allocation hands out only refcount-0 clusters, contiguous, no longer than requested, sets them to 1 and changes nothing else; free decrements exactly once, never below zero (panics instead), lowers the hint to the freed cluster; alloc-then-free round trip; the allocator loops terminate with the model's fuel under every geometry. Tie: allocator choices of the real code (host offsets, hint, every refcount) equal the model's on write/discard/rewrite cycles; single-owner and refcount>=1 oracle on the RAM view after every operation.",
    ref="5.C08", tech="Lean 4 theorems on the mirrored allocator + correspondence of every allocation decision + ownership oracle", note=COMMON_NOTE + "; concurrent allocation (disjointness under interleaving) is covered by C06's schedule exploration, not by these theorems"),
